@@ -220,6 +220,70 @@ def small_collections(rng, th):
         two.append(klocal(rng, 2))
     return out, two
 
+# ---- the same collection OBJECT across edits: a cached graph / orbit must not survive replace, contract, append, remove
+def reused_handle(line):
+    """`reuse <G> <V> <W> <ops>`: one collection object; OTOC and graph complexity asked before and after every edit;
+    each answer is judged against the independent orbit BFS on the strings the collection holds at that moment"""
+    import impl_collection as IC
+    from paulie.application.otoc import average_otoc
+    from paulie.application.graph_complexity import average_graph_complexity
+    try:
+        _, gs, v, w, ops = line.split(" ")
+        c = IC.mk(I.strs(gs))
+        V, W = I.mk(v), I.mk(w)
+        def observe(when):
+            cur = IC.names(c)
+            if not cur or any(len(x) != len(v) for x in cur):
+                return None
+            dist = I.orbit_dist(cur, v)
+            a = sum(1 for x in dist if O.anti(O.enc(w), x)); sz = len(dist)
+            f = average_otoc(c, V, W)
+            if abs(f - (1 - 2 * a / sz)) > 1e-9:
+                return f"{when}: average_otoc on the edited collection {cur} = {f}, orbit definition 1-2*{a}/{sz}"
+            g = average_graph_complexity(c, V)
+            exp = sum(dist.values()) / sz
+            if abs(g - exp) > 1e-9 * max(1.0, exp):
+                return f"{when}: average_graph_complexity on the edited collection {cur} = {g}, mean orbit distance {exp}"
+            return None
+        why = observe("before any edit")
+        if why:
+            return why
+        for k, op in enumerate([] if ops == "-" else ops.split(";")):
+            try:
+                c = IC.edit(c, op.split(":"))
+            except Exception:
+                pass
+            why = observe(f"after {';'.join(ops.split(';')[:k + 1])}")
+            if why:
+                return why
+        return "ok"
+    except Exception as e:
+        return exc_name(e)
+
+def gen_reused(rng):
+    import props.c10 as C10
+    n = rng.choice([2, 2, 3, 3])
+    gs = [rs(rng, n, rng.choice([1, 2])) for _ in range(rng.randint(2, 5))]
+    gs = [g for g in dict.fromkeys(gs)]
+    cur = list(gs)
+    ops = []
+    for _ in range(rng.randint(1, 4)):
+        k = rng.choice(["rep", "con", "con", "app", "rem", "sort"])
+        if k == "rep" and cur:
+            t = [k, rng.choice(cur), rs(rng, n)]
+        elif k == "con" and len(cur) >= 2:
+            a, b = rng.sample(cur, 2)
+            t = [k, a, b]
+        elif k == "app":
+            t = [k, rs(rng, n)]
+        elif k == "rem" and len(cur) > 1:
+            t = [k, rng.choice(cur)]
+        else:
+            t = ["sort"]
+        cur = C10.spec_edit(cur, t)
+        ops.append(":".join(t))
+    return f"reuse {','.join(gs)} {rs(rng, n) .replace('I' * n, 'X' * n)} {rs(rng, n)} {';'.join(ops)}"
+
 def build_streams(rng, tier):
     th = tier == "thorough"
     # ---- all pairs (V,W) on n <= 2
@@ -324,6 +388,8 @@ def build_streams(rng, tier):
         Stream("fourpoint", fp, h, oracle, nontrivial=lambda l, o: o != "zero", tag=tag, shrink=shrink),
         Stream("not-on-the-same-qubits", mal, h, oracle, tag=tag, shrink=shrink),
         Stream("model-cores", core, h, oracle, nontrivial=nt, tag=tag, shrink=shrink),
+        Stream("same-collection-object-across-edits", [gen_reused(rng) for _ in range(1200 if tier == "thorough" else 250)], reused_handle,
+               oracle=lambda l, o: None if o == "ok" else o, model=False, tag=lambda l, o: "reuse:" + ("ok" if o == "ok" else "bad")),
     ]
 
 def shrink(line):
